@@ -658,7 +658,7 @@ MALFORMED = [
 
 
 def generate(rng: random.Random, tier: str):
-    n = 2500 if tier == "quick" else 40000
+    n = 6000 if tier == "quick" else 60000
     for i in range(n):
         g = Gen(rng)
         yield case_of(g.history(tier))
@@ -711,6 +711,63 @@ def corpus():
     return [case_of(s, tags=(t,), origin="corpus") for s, t in out]
 
 
+def _enum_mods():
+    cd = lambda **k: dict({"name": None, "vt": None, "default": None, "entity": None, "dp": None, "end": None,
+                           "si": None, "formulas": []}, **k)
+    return [
+        ("neu", "a"), ("ann", "a"), ("neu", "b"), ("ann", "b"),
+        ("upd", cd(name="a", formulas=[(O(2018, 2, 1), 11)])),
+        ("upd", cd(name="b", default="4", end=O(2020, 12, 31), formulas=[(O(2017, 1, 1), 12)])),
+        ("rep", cd(name="a", vt="float", entity="household", dp="year", formulas=[(1, 13)])),
+        ("add", cd(name="n1", vt="int", entity="person", dp="month", default="2", formulas=[(O(2015, 1, 1), 14)])),
+        ("par", [{"name": "r", "a": O(2016, 1, 1), "b": None, "v": "5"}]),
+        ("par", [{"name": "s", "a": O(2018, 1, 1), "b": O(2018, 2, 28), "v": "6"}]),
+    ]
+
+
+def enumerate_thorough():
+    """every pair and every triple of the ten modifications above, in three derivation shapes:
+    on a clone (one call each), inside one reform's apply(), and spread over chained reforms"""
+    import itertools
+    fdefs = {1: ["+", ["k", 7], ["m"]], 2: ["*", ["v", "a", "s"], ["p", "r"]], 3: ["+", ["v", "a", "j"], ["p", "s"]],
+             4: ["v", "a", "a"], 11: ["*", ["m"], ["k", 3]], 12: ["-", ["v", "a", "l"], ["k", 1]], 13: ["k", 9],
+             14: ["+", ["v", "b", "s"], ["k", 1]]}
+    vars_ = [
+        {"name": "a", "vt": "float", "default": None, "entity": "person", "dp": "month", "end": None, "si": None, "formulas": [(1, 1)]},
+        {"name": "b", "vt": "float", "default": "5", "entity": "person", "dp": "month", "end": O(2019, 12, 31), "si": None,
+         "formulas": [(1, 2), (O(2018, 2, 1), 3)]},
+        {"name": "c", "vt": "int", "default": None, "entity": "household", "dp": "year", "end": None, "si": None, "formulas": [(1, 4)]},
+    ]
+    requests = [("b", 2018, 3), ("a", 2018, 1), ("c", 2018, 1), ("a", 2018, 3), ("n1", 2018, 3), ("b", 2017, 12)]
+    inputs = [("a", "month", 2018, 3, [4, 5, 6])]
+    mods = _enum_mods()
+    for k in (2, 3):
+        for combo in itertools.product(mods, repeat=k):
+            shapes = [
+                [("C", 0)] + [("M", 1, m) for m in combo],
+                [("R", 0, list(combo))],
+                [("R", i, [m]) for i, m in enumerate(combo)],
+            ]
+            for ops in shapes:
+                spec = _base_spec(ops, requests, inputs=inputs, fdefs=fdefs, vars_=vars_)
+                spec["queries"] = [O(2016, 12, 31), O(2017, 1, 1), O(2018, 2, 1), O(2018, 2, 28), O(2021, 1, 1)]
+                yield case_of(spec, tags=("enum",), origin="enum")
+
+
+def neighbours(case: Case):
+    """the same history with one operation (or one modification of a reform) removed"""
+    spec = su.parse_line(case.line)
+    if spec is None:
+        return
+    ops = spec["ops"]
+    for i in range(len(ops)):
+        yield case_of(dict(spec, ops=ops[:i] + ops[i + 1:]), origin="search")
+        if ops[i][0] == "R":
+            for j in range(len(ops[i][2])):
+                o = ("R", ops[i][1], ops[i][2][:j] + ops[i][2][j + 1:])
+                yield case_of(dict(spec, ops=ops[:i] + [o] + ops[i + 1:]), origin="search")
+
+
 PROP = Prop(
     pid="C14",
     lean_targets=["OFCore.Props.C14"],
@@ -719,6 +776,11 @@ PROP = Prop(
     oracle=oracle,
     nontrivial=nontrivial,
     corpus=corpus,
+    enumerate_thorough=enumerate_thorough,
+    neighbours=neighbours,
+    exhaustive_note=("thorough: every pair and every triple of ten representative modifications (neutralise / annualise / "
+                     "update / replace / add / two parameter modifiers) in three derivation shapes (clone + calls, one reform, "
+                     "chained reforms) on a fixed three-variable base: 3 300 histories"),
     canon_equal=canon_equal,
     driver="ofdrv_sys",
     rule=("a history of derivations (clone / reform / chained reform) and modifications (add / update / replace / "
